@@ -37,6 +37,7 @@ def units(tier, seed):
     for sx, sy in ((1.0, 2.0 ** -40), (2.0 ** -40, 1.0), (2.0 ** 30, 2.0 ** 30)):
         plan.append((curves.scaled(curves.G12Y013 if tier == 'quick' else curves.A12, sx, sy).name, 4, 8))
         plan.append((curves.scaled(curves.Y013, sx, sy).name, 5, 4))
+    plan += [('Tweb0r', 7, 8), ('Tusr0s64', 7, 16)] if tier == 'quick' else [('Tweb0r', 9, 8), ('Tusr0s64', 9, 16)]
     extra = [(0.1, 0.2), (0.25, 0.25), (0.125, 0.5), (0.4, 0.05), (0.15, 0.15), (0.05, 0.6)][seed % 6]
     return [(prof, n, k, K, tier, extra) for prof, n, K in plan for k in range(K)]
 
